@@ -37,6 +37,8 @@ CHECKS.update({
  "C07": dict(engine="Extract", technique="TLC: the extraction algorithm model (Extract!BF: Bellman-Ford + rank guard, saturating costs) checked against the reference least fixpoint MinCost on all small e-graphs and scan orders (MC_Extract) + replay of model e-graphs and counterexamples on the real extractor + TLC trace validation of every (extract ..) result (cost = MinCost, term in class, only usable rows, tree cost = reported cost, variants rooted at distinct e-nodes)",
    note="bounded e-graphs (2-3 classes, 3-4 rows exhaustively; larger ones sampled); scaled u64 arithmetic (Huge = i64::MAX, Cap = u64::MAX); no containers; the algorithm model is bound to the code through extraction results only", ref="6 (C07)",
    text="Extract.tla defines the reference (least fixpoint of the tree-additive cost over non-subsumed, extractable rows with saturating addition) and transcribes the algorithm; TLC checks CostIsMin, HasCostHasParent, ParentsWellFounded, TermCostIsCost on every e-graph and scan order at the bound, with and without saturating costs; the e-graphs (and the counterexamples found with saturation) are rebuilt on the real engine and every class extracted; the trace module recomputes MinCost on the logged rows and evaluates the returned terms in the logged e-graph."),
+ "C14": dict(engine="EggAbs", technique=SESS_TECH + "; container values in the specification; directed in-place-rebuild scenarios; twin runs semi-naive/naive and parallel container rebuild", note=SESS_NOTE + "; Vec/Set/MultiSet/Pair over an eq-sort nested up to 3 levels, no Map", ref="6 (C14)",
+   text="Containers are values of EggAbs (contents over least-term class names, re-normalised by MapVal whenever class names change), so two containers equal modulo the current equalities are the same value and rows keyed by them are merged by Close; the trace module rebuilds container values from the logged raw contents, checks that ids inside containers are canonical and that equal contents share one container id, and compares the database after every command; random sessions and directed scenarios (a rule matching through nested contents that only becomes matchable by an in-place rebuild) run under semi-naive, naive and 4-thread/cut-off-0 configurations."),
 })
 
 NA = {
